@@ -1026,7 +1026,15 @@ fn families(ctx: &Ctx, sink: Sink) {
             };
             family_singles(4, true, true, thorough, &o, sink);
             family_pairs(if thorough { 4 } else { 3 }, thorough, &o, sink);
-            family_hist_inside(3, &o, sink);
+            // Illegal configurations after a history target from inside the history's parent are a known finding (the
+            // published algorithm produces them). That classification must not hide anything else: on this family the
+            // real trace is also compared with the reference interpreter, which follows the published algorithm.
+            let o_ref = Opts {
+                use_reference: true,
+                check_legality: true,
+                ..Opts::default()
+            };
+            family_hist_inside(3, &o_ref, sink);
             family_corpus(thorough, 0, &o, sink);
         }
         "C02" => {
@@ -1144,6 +1152,7 @@ fn families(ctx: &Ctx, sink: Sink) {
             sink(scenario_item("event-fields@ecmascript", ""));
             sink(scenario_item("readonly@ecmascript", ""));
             sink(scenario_item("readonly@ecmascript-nonstrict", ""));
+            sink(scenario_item("sysvar-data@ecmascript", ""));
         }
         "C09" => {
             let o = Opts::default();
@@ -1153,6 +1162,7 @@ fn families(ctx: &Ctx, sink: Sink) {
             family_binding(&o, sink);
             sink(scenario_item("event-fields", ""));
             sink(scenario_item("readonly", ""));
+            sink(scenario_item("sysvar-data", ""));
         }
         "C08" if ctx.has("--ecma") => {
             let o = Opts {
@@ -1526,6 +1536,81 @@ fn scenario_event_fields(ctx: &Ctx, out: &mut WorkerOut, index: usize, dm: &str)
 }
 
 /// C09: system variables can not be modified: every attempt raises error.execution and changes nothing.
+/// C09: a <data> element that carries the id of a system variable (early bound at the root, late bound in a state)
+/// with a literal, a bare reference to another system variable / event field, or an ordinary variable as value:
+/// the system variables keep their platform values.
+fn scenario_sysvar_data(ctx: &Ctx, out: &mut WorkerOut, index: usize, dm: &str) {
+    let ids = ["_sessionid", "_name", "_ioprocessors", "_event"];
+    let exprs = ["'hacked'", "_sessionid", "_name", "_event.name", "_event", "v", "1"];
+    for id in ids {
+        for ex in exprs {
+            for late in [false, true] {
+                let decl = format!("<data id=\"{}\" expr=\"{}\"/>", id, ex);
+                let (root_data, state_data, binding) = if late { (String::new(), format!("<datamodel>{}</datamodel>", decl), " binding=\"late\"") } else { (decl.clone(), String::new(), "") };
+                let xml = format!(
+                    r#"<scxml {ns} datamodel="{dm}" name="thename"{binding}>
+<datamodel><data id="v" expr="5"/>{root_data}</datamodel>
+<state id="s"><transition event="go" target="t"/><transition event="error"><log expr="mark('err', _event.name)"/></transition></state>
+<state id="t">{state_data}
+ <onentry><log expr="mark('rb','_sessionid',_sessionid)"/><log expr="mark('rb','_name',_name)"/><log expr="mark('rb','_event.name',_event.name)"/></onentry>
+ <transition event="error"><log expr="mark('err', _event.name)"/></transition>
+</state></scxml>"#,
+                    ns = XMLNS,
+                    dm = dm,
+                    binding = binding,
+                    root_data = root_data,
+                    state_data = state_data
+                );
+                let replay = json!({"engine":"e1","index": index, "xml": xml});
+                let mut run = match Run::start(&xml, std::time::Duration::from_secs(20)) {
+                    Ok(r) => r,
+                    Err(_) => {
+                        // the reader may refuse such a declaration
+                        out.add("documents_rejected_by_reader", 1);
+                        continue;
+                    }
+                };
+                out.add("runs", 1);
+                let mut ok = run.wait_idle(1) == Wait::Idle;
+                if ok {
+                    run.send_name("go");
+                    ok = run.wait_idle(2) == Wait::Idle;
+                    out.add("edges", 1);
+                }
+                if !ok {
+                    out.violation(ctx, "session-stops-responding", &format!("sysvar-data:no-idle:{}", id), &format!("<data id={} expr={}> late={}: {:?}", id, ex, late, take_panics()), replay);
+                    run.finish();
+                    continue;
+                }
+                let sid = run.session.session_id.to_string();
+                let rb: Vec<(String, String)> = run
+                    .log
+                    .snapshot()
+                    .iter()
+                    .filter_map(|(_, r)| match r {
+                        Rec::Mark { args, .. } if args.len() == 3 && args[0] == "rb" => Some((args[1].clone(), args[2].clone())),
+                        _ => None,
+                    })
+                    .collect();
+                let want = vec![("_sessionid".to_string(), sid.clone()), ("_name".to_string(), "thename".to_string()), ("_event.name".to_string(), "go".to_string())];
+                out.add("ref_comparisons", 1);
+                if rb != want {
+                    out.violation(
+                        ctx,
+                        "system-variable-modified",
+                        &format!("sysvar-data:{}:{}:{}", dm, id, if late { "late" } else { "early" }),
+                        &format!("<data id=\"{}\" expr=\"{}\"/> ({} binding): the system variables read back {:?}, the platform values are {:?}", id, ex, if late { "late" } else { "early" }, rb, want),
+                        replay,
+                    );
+                } else {
+                    out.outcomes.insert(format!("sysvar-data|{}|intact", id));
+                }
+                run.finish();
+            }
+        }
+    }
+}
+
 fn scenario_readonly(ctx: &Ctx, out: &mut WorkerOut, index: usize, dm: &str) {
     let mut attempts: Vec<(&str, String)> = vec![
         ("none", "".into()),
@@ -1732,6 +1817,13 @@ fn oddities() -> Vec<(&'static str, &'static str, String, &'static str)> {
     c("send-same-var-target-content", r##"<send event="x" targetexpr="sv"><content expr="sv"/></send>"##, "");
     c("send-same-var-target-idlocation", r##"<send event="x" targetexpr="sv" idlocation="sv"/>"##, "");
     c("send-same-var-event-type-delay", r##"<send eventexpr="sv" typeexpr="sv" delayexpr="sv"/>"##, "");
+    c("send-same-var-event-type", r##"<send eventexpr="sv" typeexpr="sv"/>"##, "");
+    c("send-same-var-event-type-valid", r##"<send eventexpr="st" typeexpr="st"/>"##, "");
+    c("send-same-var-type-target-valid", r##"<send event="x" typeexpr="st" targetexpr="st"/>"##, "");
+    c("send-same-var-event-delay", r##"<send eventexpr="sd" delayexpr="sd"/>"##, "");
+    c("send-same-var-type-delay", r##"<send event="x" typeexpr="sd" delayexpr="sd"/>"##, "");
+    c("send-same-var-event-param-content", r##"<send eventexpr="sv"><param name="p" expr="sv"/><param name="q" expr="sv"/></send>"##, "");
+    c("send-same-var-all", r##"<send eventexpr="st" typeexpr="st" targetexpr="st" namelist="st"><param name="p" expr="st"/></send>"##, "");
     c("send-bad-namelist", r##"<send event="x" namelist="undefq"/>"##, "error.execution");
     c("send-bad-param-expr", r##"<send event="x"><param name="p" expr="undefq + 1"/></send>"##, "error.execution");
     c("send-bad-param-location", r##"<send event="x"><param name="p" location="undefq"/></send>"##, "error.execution");
@@ -1825,7 +1917,7 @@ fn c12_doc(odd: &[(&str, &str, String, &str)]) -> String {
     }
     format!(
         r##"<scxml {ns} {attr} name="odd">
-<datamodel><data id="v" expr="0"/><data id="sv" expr="'#_internal'"/><data id="arr" expr="[1, 2]"/>{data}</datamodel>
+<datamodel><data id="v" expr="0"/><data id="sv" expr="'#_internal'"/><data id="st" expr="'scxml'"/><data id="sd" expr="'1ms'"/><data id="arr" expr="[1, 2]"/>{data}</datamodel>
 <state id="s0">
  <transition event="e1"{cond} target="s1"><script>mark('before')</script>{content}<script>mark('after')</script></transition>
  <transition event="e1" target="s1"><script>mark('fallback')</script></transition>
@@ -1991,6 +2083,8 @@ fn run_scenario(ctx: &Ctx, out: &mut WorkerOut, index: usize, name: &str, _label
         "foreach-sources@ecmascript" => scenario_foreach_sources(ctx, out, index, "ecmascript"),
         "event-fields" => scenario_event_fields(ctx, out, index, "rfsm-expression"),
         "readonly" => scenario_readonly(ctx, out, index, "rfsm-expression"),
+        "sysvar-data" => scenario_sysvar_data(ctx, out, index, "rfsm-expression"),
+        "sysvar-data@ecmascript" => scenario_sysvar_data(ctx, out, index, "ecmascript"),
         "event-fields@ecmascript" => scenario_event_fields(ctx, out, index, "ecmascript"),
         "readonly@ecmascript" => scenario_readonly(ctx, out, index, "ecmascript"),
         "readonly@ecmascript-nonstrict" => {
